@@ -68,6 +68,21 @@ CHECKS.update({
     ),
 })
 
+CHECKS.update({
+    "C05": (
+        "Hypothesis signature-shape program generator; round-trip oracle: library Qtype objects -> encode_input -> own reversible simulation -> output_qubits reading -> decode_output vs reference value, for every argument value",
+        "For generated programs with multi-argument and nested tuple/list/matrix/char/fixed signatures, every argument value is encoded with the library's own objects, the circuit is simulated from exactly that bit string, the output qubits are read in the reported order and decode_output must return the reference value in the return type; input_qubits/output_qubits ranges and order, sharing of output qubits and decode_counts aggregation are checked. Sampled over programs, exhaustive over values (<=10 bits).",
+        "Reading convention from test_qlassf.py; reference semantics vlib/refsem.py; rows only determined modulo 2^k are left to C01.",
+        "DESIGN.md section 3 C05",
+    ),
+    "C07": (
+        "Hypothesis (callee, caller) generator with element/repeated/swapped/clashing-name arguments, three delivery modes; differential oracle: caller expressions on all rows vs reference with the callee applied to the actual values; callee fingerprint invariant",
+        "Generated callers call 1..2 generated callees through defs=, inline def and oraclize; the caller's expression list is evaluated on every argument assignment against the reference composition, must contain no free symbol, and the callee object must be unchanged. Sampled over program pairs, exhaustive over inputs.",
+        "Actual and formal types match exactly; a call result is coerced to the callee's declared return type; rejected calls are counted only.",
+        "DESIGN.md section 3 C07",
+    ),
+})
+
 NOT_YET = "check not built yet in this session (work in progress; see DESIGN.md section 3)"
 
 
